@@ -17,6 +17,7 @@ OPENERS = ("rules.shared_options", "opener_rules", "facts")
 ENTRYF = ("rules.shared_options", "entry_fields_rules", "facts")
 RREF = ("rules.shared_refusals", "read_refusals", "ctx")
 WREF = ("rules.shared_refusals", "write_refusals", "ctx")
+XWALK = ("rules.shared_extrawalk", "extrawalk_rules", "facts")
 
 FOREIGN = {
     "C01": [  # write -> read round trip
@@ -59,6 +60,7 @@ FOREIGN = {
         (("rules.C03", "dosmode_rules", "facts"), "permission bits derived from DOS attributes"),
     ],
     "C08": [
+        (XWALK, "the ZIP64 record is found wherever it stands among the extra records (every layout the specification allows)"),
         (("rules.C01", "patch_rules", "facts"), "the 4 GiB refusal of a non-large entry keeps failing on every later close (the size recomputation is checked, not saturated)"),
         (("rules.C03", "sentinel_rules", "facts"), "foreign ZIP64 archives that mask the classic disk numbers are accepted"),
         (("rules.C10", "drain_rules", "facts"), "a streamed ZIP64 entry is bounded by its 64-bit size: the limit is taken after the local ZIP64 record was decoded"),
@@ -68,12 +70,14 @@ FOREIGN = {
         (("rules.C02", "narrow_rules", "ctx"), "no value is truncated into a 16/32-bit field"),
     ],
     "C10": [
+        (XWALK, "both readers walk the local/central extra field on record boundaries"),
         (("rules.C03", "flagbits_rules", "facts"), "both parsers read the same flag bits"),
         (RREF, "both readers refuse the same inputs: no refusal is added to one of them"),
         (("rules.C03", "fieldwriters_rules", "facts"), "both readers report what the headers hold"),
         (("rules.C04", "table_rules", "facts"), "contents are CRC-checked the same way"),
     ],
     "C13": [
+        (XWALK, "the old entries' ZIP64 / AE-x records are re-read on record boundaries when an archive is opened for append"),
         (("rules.C19", "flag_decode_rules", "facts"), "old names are re-read by the flagged encoding only (an append does not rename entries)"),
         (("rules.C03", "central_rules", "ctx"), "old entries are located through their own local headers (names re-encoded on re-emission do not shift them)"),
         (("rules.C01", "mode_rules", "ctx"), "re-emitted entries keep their external attributes: the shift is applied where the attribute word is built, not where it is written"),
@@ -121,6 +125,7 @@ FOREIGN = {
         (("rules.C13", "raw_rules", "facts"), "append re-writes parsed entries untouched"),
     ],
     "C16": [
+        (XWALK, "the AE-x record is found wherever it stands among the extra records"),
         (("rules.shared_zip64", "pair_rules", "ctx"), "AES entries with ZIP64 sizes: the two 64-bit values are consumed in APPNOTE order"),
         (("rules.C03", "flagbits_rules", "facts"), "the encrypted flag is bit 0"),
         (("rules.C15", "open_rules", "facts"), "no password => the password-required error for every encrypted entry, AES included"),
